@@ -1,0 +1,12 @@
+//go:build verif
+
+package stream
+
+import "github.com/rulego/streamsql/types"
+
+// VerifAnalyticPartitionKey exposes analyticFieldEngine.partitionKey (the encoded
+// PARTITION BY key of a row) to the verification harness. Accessor only.
+func VerifAnalyticPartitionKey(partitionBy []string, row map[string]any) string {
+	fe := &analyticFieldEngine{af: types.AnalyticField{Over: &types.OverSpec{PartitionBy: partitionBy}}}
+	return fe.partitionKey(row)
+}
